@@ -58,7 +58,8 @@ BODY_CONTEXTS = ["TYPE @t\n", "TYPE @t regex\n", "GET /a\n200 regex\n", "GET /a\
                  "ENUM @e\n", "GET /a\nQuery q\n", "URL /a/{id}\nPath\n", "POST /a\nRequest\n", "POST /a\nRequest regex\n", "GET /a\n200\nHeaders\n",
                  "URL /r\nProtocol json-rpc-2.0\nMethod m\nParams\n", "URL /r\nProtocol json-rpc-2.0\nMethod m\nResult\n", "GET /a\nDescription\n",
                  "GET /a\nDescription\n(\n", "GET /a // ", "GET /a /* ", 'GET "']
-BODY_EXTRA = ["/ab" + chr(92), "/a" + chr(92) * 2 + "/b/", "/^C:" + chr(92) * 2 + "/", "/a" + chr(92) * 4 + "/", "/a" + chr(92) + "/b/", "/a" + chr(92), "/", "//", "/a/ x",
+BODY_EXTRA = ["/[^/]+/", "/a[/]b/", "/[abc", "/x[/ y ]/ z/", "/[" + chr(92) + "]/]/",   # a '/' inside a character class ends the expression all the same
+              "/ab" + chr(92), "/a" + chr(92) * 2 + "/b/", "/^C:" + chr(92) * 2 + "/", "/a" + chr(92) * 4 + "/", "/a" + chr(92) + "/b/", "/a" + chr(92), "/", "//", "/a/ x",
               '{"a": "' + chr(92) * 2 + '"}', '{"a": "x' + chr(92), "[1, 2", '"a' + chr(92) * 2 + '"', "text" + chr(92), "(a)", "a)", "*/", "x */ y", 'q" r']
 
 
